@@ -72,6 +72,7 @@ bool AnalyserExternalVariable::addDependency(const VariablePtr &variable)
 
     if ((pimplVariable != nullptr)
         && (variable != nullptr)
+        && (owningModel(pimplVariable) != nullptr)
         && (owningModel(variable) == owningModel(pimplVariable))
         && (mPimpl->findDependency(variable) == mPimpl->mDependencies.end())
         && !areEquivalentVariables(variable, pimplVariable)) {
